@@ -74,7 +74,7 @@ func isOpaqueStruct(t types.Type) bool {
 	if _, ok := t.Underlying().(*types.Struct); !ok {
 		return false
 	}
-	if isBigInt(t) {
+	if isBigInt(t) || isTransparentExternal(t) {
 		return false
 	}
 	return !isRepoType(t)
